@@ -609,6 +609,67 @@ def check_remove_edge(ctx, res: Result, cls: str):
                     res.add("P-DEL", f, norm(loop.iter), tab + ":iter", "ok" if good else "unknown", "" if good else f"loop iterates over {ik!r}", _where(v, loop))
 
 
+def check_id_monotone(ctx, res: Result, cls: str, rule="P-IDMONO"):
+    """Edge ids are handed out by a counter that only grows: records keep their id for life, and tables keyed by id (weights,
+    metadata, reverse index, incidence lists) rely on an id never being given to a second hyperedge while the first is alive.
+    Outside the constructors / loaders / clear(), every write of `_next_edge_id` is an increment."""
+    resets = {"__init__", "clear", "populate_from_dict", "set_edge_list", "set_adj_dict", "__setstate__"}
+    # private helpers that only the constructors / loaders call (`_init_tables`, `_create_tables`) reset too
+    callers = {}
+    for m_ in ctx.methods(cls).values():
+        for c_ in walk_no_nested(m_.node):
+            if isinstance(c_, ast.Call):
+                for g_ in ctx.callees(m_, c_):
+                    callers.setdefault(g_.name, set()).add(m_.name)
+    grew = True
+    while grew:
+        grew = False
+        for nm_, cs_ in callers.items():
+            if nm_ not in resets and cs_ and cs_ <= resets:
+                resets.add(nm_)
+                grew = True
+    n = 0
+    for name, fi in sorted(ctx.methods(cls).items()):
+        if name in resets:
+            continue
+        v = ctx.view(fi)
+        for st in walk_no_nested(fi.node):
+            tg = None
+            if isinstance(st, ast.AugAssign) and is_self_attr(st.target, "_next_edge_id"):
+                n += 1
+                ok = isinstance(st.op, ast.Add) and not (isinstance(st.value, ast.UnaryOp) and isinstance(st.value.op, ast.USub)) and not (isinstance(st.value, ast.Constant) and isinstance(st.value.value, (int, float)) and st.value.value < 0)
+                res.check(ok, rule, fi.short, norm(st), "increment", "the edge-id counter is decreased: an id that a live hyperedge still holds can be handed out again (its weight / metadata / reverse-index entry is overwritten)", _where(v, st))
+            elif isinstance(st, ast.Assign) and any(is_self_attr(t, "_next_edge_id") for t in st.targets):
+                n += 1
+                val = v.inline(st.value, depth=2)
+
+                def is_counter(x):
+                    if is_self_attr(x, "_next_edge_id"):
+                        return True
+                    if isinstance(x, ast.Name):
+                        r = v.reaching(x)
+                        if r is None:
+                            r2 = v.resolve(x)
+                            r = r2 if r2 is not x else None
+                        return r is not None and is_self_attr(r, "_next_edge_id")
+                    return False
+
+                raw = st.value
+                inc = any(isinstance(e_, ast.BinOp) and isinstance(e_.op, ast.Add) and any(is_counter(x) for x in (e_.left, e_.right)) and any(isinstance(x, ast.Constant) and isinstance(x.value, int) and x.value > 0 for x in (e_.left, e_.right)) for e_ in (val, raw))
+                grows = isinstance(val, ast.Call) and isinstance(val.func, ast.Name) and val.func.id == "max" and any(is_self_attr(a_, "_next_edge_id") or any(is_self_attr(y, "_next_edge_id") for y in ast.walk(a_)) for a_ in val.args)
+                # positively wrong: the counter is set from a COUNT of records, or inside a removal from the id that was removed
+                from_count = any(isinstance(x, ast.Call) and isinstance(x.func, ast.Name) and x.func.id == "len" for x in ast.walk(val))
+                in_removal = fi.name.startswith(("remove", "_remove", "discard", "_discard", "pop", "_drop", "drop"))
+                if inc or grows:
+                    res.ok(rule, fi.short, norm(st), "increment", _where(v, st))
+                elif not (from_count or in_removal):
+                    res.unknown(rule, fi.short, norm(st)[:100], "increment", "the new value of the id counter was not recognised as `counter + 1`", _where(v, st))
+                else:
+                    res.violation(rule, fi.short, norm(st)[:100], "increment", f"`{fi.name}` sets the edge-id counter to `{norm(st.value)[:40]}` instead of advancing it: after removals the live ids are not 0..m-1, so a value derived from a removed id or from the number of hyperedges can be an id that is still alive - the next insertion overwrites that record's weight, metadata and reverse-index entry", _where(v, st))
+    if n == 0:
+        res.unknown(rule, cls, "self._next_edge_id += 1", "increment", "no write of the id counter found outside the constructors", "")
+
+
 def check_record_deletion_joint(ctx, res: Result, cls: str):
     """P-DELJOINT: a method other than remove_edge that deletes a record's entry from an id-keyed table with its own hands
     (not by calling remove_edge) has the duties of remove_edge on that path: the other id-keyed tables, the key table and the
